@@ -74,6 +74,60 @@ def clump_scenario(ctx, k, site):
     return {'k': k, 'site': site, 'clumps': [len(c) for c in clumps]}
 
 
+def sync_scenario(ctx, k):
+    """NetAddr.sync(elements): the real generator with symbolic element sizes -- every datagram it sends (elements plus
+    the appended /sync message) stays within the UDP limit whenever each element fits next to a /sync on its own, and
+    the elements go out once and in order"""
+    from sc3.base import netaddr as nad, stream as stm, main as _m
+    main = _m.main
+    sizes = [ctx.int(f's{i}', 2, 20000) for i in range(k)]
+    sz = [x * 4 for x in sizes]
+    rec = {'mode': 'nrt', 'kind': 'sync', 'k': k, 'names': [f's{i}' for i in range(k)]}
+
+    def data(sub):
+        return {'key': f'c06:sync:{sub}', 'replay': dict(rec, sub=sub)}
+    addr = nad.NetAddr('127.0.0.1', 57110)
+    elements = [[f'/e{i}', i] for i in range(k)]
+    by_id = {id(e): s for e, s in zip(elements, sz)}
+    SYNC = 16          # '/sync' + ',i' + int32
+    saved = nad.NetAddr._calc_msg_dgram_size
+    nad.NetAddr._calc_msg_dgram_size = lambda self, e: by_id.get(id(e), SYNC if e[0] == '/sync' else None)
+    sent = []
+    addr.send_bundle = lambda time, *els: sent.append([e for e in els])
+    limit = addr._MAX_UDP_DGRAM_SIZE
+    try:
+        with symx.shims():
+            def body():
+                yield from addr.sync(None, None, elements)
+            r = stm.Routine(body)
+            for _ in range(4 * k + 4):
+                try:
+                    r.next()
+                except stm.StopStream:
+                    break
+            else:
+                raise Inconclusive('sync did not finish')
+    finally:
+        nad.NetAddr._calc_msg_dgram_size = saved
+        main.reset()
+    carried = [e for b in sent for e in b if e[0] != '/sync']
+    if [id(e) for e in carried] != [id(e) for e in elements]:
+        raise Violation('sync does not carry every element exactly once and in order', None, data('order'))
+    fits_alone = z3.And(*[symx._t(16 + 4 + s + 4 + SYNC) <= limit for s in sz])
+    for bi_, b in enumerate(sent):
+        if sum(1 for e in b if e[0] == '/sync') != 1 or b[-1][0] != '/sync':
+            raise Violation(f'datagram {bi_} of sync does not end with exactly one /sync message', None, data('sync-msg'))
+        real = 16
+        for e in b:
+            real = real + 4 + (SYNC if e[0] == '/sync' else by_id[id(e)])
+        ctx.prove(z3.Implies(fits_alone, symx._t(real) <= limit),
+                  f'datagram {bi_} of {len(sent)} sent by sync exceeds the UDP limit although every element fits next to '
+                  f'a /sync message on its own', data('size'))
+    ctx.note('sync:%d' % len(sent))
+    ctx.note('sync')
+    return {'k': k, 'datagrams': [len(b) for b in sent]}
+
+
 # ------------------------------------------------------------------ (C) /d_recv boundary
 
 def dsend_scenario(ctx):
@@ -149,6 +203,8 @@ def _reproduces(r):
 def job(j):
     if j['kind'] == 'clump':
         h = lambda c: clump_scenario(c, j['k'], j['site'])     # noqa
+    elif j['kind'] == 'sync':
+        h = lambda c: sync_scenario(c, j['k'])                 # noqa
     else:
         h = dsend_scenario
     st = explore(h, max_paths=50000, timeout_ms=20000, stop_on_violation=True)
@@ -161,6 +217,48 @@ def job(j):
 
 
 # ------------------------------------------------------------------ replay
+
+def _replay_sync(rec, vals):
+    """real messages of the model's sizes through the real NetAddr.sync in an NRT routine; real encoded sizes"""
+    from sc3.base import netaddr as nad, stream as stm, main as _m
+    main = _m.main
+    k = rec['k']
+    addr = nad.NetAddr('127.0.0.1', 57110)
+    els = []
+    for i in range(k):
+        s = int(vals.get(f's{i}', 3)) * 4
+        pay = s - 4 - 4 - 4
+        if pay < 4:
+            els.append(['/e%d' % i, i] if s >= 12 else ['/e%d' % i])
+        else:
+            els.append(['/e%d' % i, b'\x01' * pay])
+    sent = []
+    addr.send_bundle = lambda time, *e: sent.append(list(e))
+    main.reset()
+    try:
+        def body():
+            yield from addr.sync(None, None, els)
+        r = stm.Routine(body)
+        for _ in range(4 * k + 4):
+            try:
+                r.next()
+            except stm.StopStream:
+                break
+    finally:
+        main.reset()
+    osci = main._osc_interface
+    limit = addr._MAX_UDP_DGRAM_SIZE
+    carried = [e for b in sent for e in b if e[0] != '/sync']
+    if [id(e) for e in carried] != [id(e) for e in els]:
+        return 'sync does not carry every element exactly once and in order'
+    alone = all(len(osci._build_bundle(0.0, [None, e, ['/sync', 1]]).dgram) <= limit for e in els)
+    for b in sent:
+        n = len(osci._build_bundle(0.0, [None] + b).dgram)
+        if alone and n > limit:
+            return f'sync(elements of sizes {[len(osci._build_msg(0.0, e).dgram) for e in els]}) sends a datagram of ' \
+                   f'{n} bytes (limit {limit})'
+    return None
+
 
 def replay(rec):
     kind = rec['kind']
@@ -182,6 +280,8 @@ def replay(rec):
             return f'{call} raises {type(e).__name__}: {e}'
         return None if ok else f'{call} is False: {(getattr(m, fn).__doc__ or "").strip().splitlines()[0]}'
     vals = rec.get('values', {})
+    if kind == 'sync':
+        return _replay_sync(rec, vals)
     if kind == 'clump':
         from sc3.base import netaddr as nad, main as _m
         k, site = rec['k'], rec['site']
@@ -288,9 +388,10 @@ def main(tier, seed):
     jobs = [dict(kind='clump', k=k, site=s) for s in ('default', 'sync', 'sym')
             for k in ((1, 2, 3) if tier == 'quick' else (1, 2, 3, 4, 5))]
     jobs += [dict(kind='dsend')]
+    jobs += [dict(kind='sync', k=k) for k in ((1, 2, 3) if tier == 'quick' else (1, 2, 3, 4))]
     for r in run_jobs('vf.props.c06', 'job', jobs, 'nrt'):
         chk.add('framing', r)
-    chk.require_notes('framing', ['clump:default', 'clump:sync', 'clump:sym', 'd_recv', 'd_load'])
+    chk.require_notes('framing', ['clump:default', 'clump:sync', 'clump:sym', 'd_recv', 'd_load', 'sync', 'sync:1', 'sync:2'])
     # (D) symbolic-content ropes: message and bundle framing, decoding, size prediction, NUL refusal
     from . import c06_ropes
     templates = c06_ropes.TEMPLATES_QUICK if tier == 'quick' else c06_ropes.TEMPLATES_THOROUGH
